@@ -6,7 +6,8 @@
                  binary operator), one action per branch of the code.
    Mode = "gen"  export of the test space: every depth-1 expression tree over the boundary literal set x
                  every unary/binary operator, shifts and conversions to every basic type, plus (Tier 2)
-                 depth-2 trees chosen pseudo-randomly from Seed.  Each case carries the expression
+                 depth-2 trees chosen pseudo-randomly from Seed, plus the programs of three constant
+                 declarations k1 = base, k2 = F(k1), k3 = G(k1, k2) (every base x F x G).  Each case carries the expression
                  (structured), its Go source, and what the reference says must be observed (verdict,
                  reference literal, print type, default type) - all computed here by TLC.
                  Shard k of NShards exports the cases with id % NShards = k (parallel TLC processes). *)
@@ -55,6 +56,8 @@ P512m1 == [s |-> 1, l |-> <<4095, 608, 6490, 6433, 6994, 9465, 2811, 5388, 8537,
 F53p1 == [s |-> 1, l |-> <<993, 5474, 1992, 9007>>]
 F24p1 == [s |-> 1, l |-> <<7217, 1677>>]
 F24p3 == [s |-> 1, l |-> <<7219, 1677>>]
+P62p1 == [s |-> 1, l |-> <<7905, 2738, 184, 1686, 461>>]
+NF53p1 == [s |-> -1, l |-> <<993, 5474, 1992, 9007>>]
 MaxF32 == [s |-> 1, l |-> <<5440, 1692, 4845, 4183, 1170, 8598, 8528, 4663, 2823, 340>>]
 IntLitsOk ==
   /\ P7m1 = Sub(Pow2(7), One)
@@ -99,6 +102,8 @@ IntLitsOk ==
   /\ F24p1 = Add(Pow2(24), One)
   /\ F24p3 = Add(Pow2(24), FromInt(3))
   /\ MaxF32 = Mul(Sub(Pow2(24), One), Pow2(104))
+  /\ P62p1 = Add(Pow2(62), One)
+  /\ NF53p1 = Neg(Add(Pow2(53), One))
 Sm(n) == IF n = 0 THEN Zero
          ELSE LET m == IF n < 0 THEN -n ELSE n IN
               [s |-> IF n < 0 THEN -1 ELSE 1, l |-> IF m < 10000 THEN <<m>> ELSE <<m % 10000, m \div 10000>>]
@@ -111,6 +116,7 @@ LImag(n, e) == [k |-> "lit", lk |-> "imag", n |-> n, e |-> e, s |-> <<>>]
 LStr(s) == [k |-> "lit", lk |-> "str", n |-> Zero, e |-> 0, s |-> s]
 LBool(b) == [k |-> "lit", lk |-> "bool", n |-> IF b THEN Sm(1) ELSE Zero, e |-> 0, s |-> <<>>]
 Un(op, a) == [k |-> "un", op |-> op, a |-> a]
+K(i, t) == [k |-> "ref", i |-> i, a |-> t]                      \* the identifier k<i>, declared as  const k<i> = <t>
 Bin(op, a, b) == [k |-> "bin", op |-> op, a |-> a, b |-> b]
 Cv(ty, a) == [k |-> "conv", ty |-> ty, a |-> a]
 I(n) == LInt(Sm(n))
@@ -191,6 +197,14 @@ SC1 == <<I(0), I(1), I(7), I(8), I(63), I(64), I(511), I(512), I(-1), LFloat(Sm(
          Cv("uint8", I(1)), Cv("int8", I(-1)), Cv("float64", I(1))>>
 SC == IF Tier = 1 THEN SC1 ELSE SC1 \o <<I(100), I(510), LInt(P64), LInt(P100), LImag(Zero, 0), LImag(Sm(1), 0), LStr(<<115>>), Cv("uint", I(7)), Cv("int64", I(63))>>
 
+\* integers that need more than 53 bits (inside int64: 2^53+1, -(2^53+1), 2^62+1, 2^63-1; beyond: 2^64+1, -(2^63+1))
+\* combined with floating-point / complex constants: mixed-kind operations must stay exact (no pass through float64)
+XI1 == <<LInt(F53p1), LInt(NF53p1), LInt(P62p1), LInt(P63m1), LInt(P64p1)>>
+XI == IF Tier = 1 THEN XI1 ELSE XI1 \o <<LInt(N63m1), LInt(P63p1), Cv("int64", LInt(P63m1)), Cv("uint64", LInt(P64m1)), Bin("<<", I(1), I(62))>>
+XF1 == <<LFloat(Sm(1), 0), LFloat(Sm(1), -1), LFloat(Sm(-3), -1), LFloat(F53p1, 0), LImag(Sm(1), 0), Cv("float64", LFloat(Sm(1), -1))>>
+XF == IF Tier = 1 THEN XF1 ELSE XF1 \o <<LFloat(Sm(1), 64), LFloat(Sm(1), -1074), LFloat(P63p1, 0), LFloat(Sm(1), 1024), Cv("float32", LFloat(Sm(3), -1)),
+                                          Cv("complex128", LImag(Sm(3), -1)), Cv("float64", LFloat(Sm(1), 63))>>
+XOpsS == IF Tier = 1 THEN <<"+", "*", "/", "==", "<">> ELSE <<"+", "-", "*", "/", "==", "!=", "<", ">=">>
 ArithOpsS == <<"+", "-", "*", "/", "%">>
 BitOpsS == <<"&", "|", "^", "&^">>
 MixedOpsA == <<"+", "*", "/", "==", "<">>
@@ -210,7 +224,8 @@ Groups == <<GUn(UnOpsS, ULeaves), GCv(ULeaves), GBin(ArithOpsS, IB, IB), GBin(Bi
             GBin(TypedOpsS, TI8, TI8), GBin(TypedOpsS, TU8, TU8), GBin(TypedOpsS, TI64, TI64), GBin(TypedOpsS, TU64, TU64),
             GBin(TypedOpsS, TF32, TF32), GBin(TypedOpsS, TF64, TF64), GBin(TypedOpsS, TC, TC),
             GBin(TypedOpsS, IF Tier = 1 THEN <<TC64[3]>> ELSE TC64, TC64),
-            GBin(<<"%", "==">>, TX, TX), GBin(LogicOpsS, LB, LB), GBin(ShiftOpsS, SL, SC)>>
+            GBin(<<"%", "==">>, TX, TX), GBin(LogicOpsS, LB, LB), GBin(ShiftOpsS, SL, SC),
+            GBin(XOpsS, XI, XF), GBin(XOpsS, XF, XI)>>
          \o (IF Tier = 1 THEN <<>> ELSE <<GBin(CmpOpsS, MX1, MX1), GBin(<<"-", "%", "&^", "|", "!=", "<=", ">", "||">>, MX1, MX1)>>)
 GN(g) == IF g.kind = "bin" THEN Len(g.ops) * Len(g.A) * Len(g.B) ELSE Len(g.ops) * Len(g.A)
 GAt(g, i) == LET o == g.ops[((i - 1) % Len(g.ops)) + 1]
@@ -253,12 +268,63 @@ CaseOf(gs, id, n1) ==
   [id |-> id, expr |-> t, src |-> Show(t), rst |-> r.st, rcls |-> r.cls, rty |-> r.ty, rchk |-> IF r.chk THEN 1 ELSE 0,
    reflit |-> RefLit(r), vt |-> PrintType(r), dt |-> IF DynObservable(r) THEN 1 ELSE 0,
    kids |-> IF id <= n1 THEN <<>> ELSE KidsOf(t)]
-\* N2 depth-2 cases follow the N1 depth-1 cases; shard k exports the ids with id % NShards = k
+
+(* ------------------------------------------------------------------ constant-declaration programs (histories) *)
+(* Second case space: programs of three constant declarations
+       const k1 = <base>      const k2 = F(k1)      const k3 = G(k1, k2)
+   A constant expression may name earlier constants; the Go specification gives an identifier the value of its
+   declaration, so every declaration (and every later use of k1, k2) must evaluate exactly as the expression with
+   the definitions written out - in particular computing k2 from k1 must leave k1 what it was.  The bases cover the
+   representations a constant can have (small / 64-bit-boundary / beyond-int64 integers as literals and as results of
+   shifts and unary ^, float64-exact and wider floats, quotients, complex, rune, typed constants); F and G cover every
+   unary operator, arithmetic with the name on either side, shifts, mixed kinds, comparisons, conversions and the
+   plain alias.  The declarations are placed at package level or inside func main (alternating). *)
+PB1 == <<I(7), LInt(P63m1), LInt(N63), LInt(F53p1), LInt(P64), Bin("<<", I(1), I(64)), Bin("<<", I(1), I(3)), LInt(P511),
+         LFloat(Sm(3), -1), LFloat(F53p1, 0), LFloat(Sm(1), 1024), LImag(Sm(3), -1),
+         Cv("uint64", LInt(P64m1)), Cv("int64", LInt(N63)), Cv("float64", LFloat(Sm(1), -1))>>
+PB2 == <<I(0), I(-1), LInt(N511), LInt(N63m1), Bin("-", LInt(P63m1), I(-1)), Un("^", LInt(P64)), Un("^", Cv("uint64", I(0))),
+         Bin("/", I(1), LFloat(Sm(4), 0)), LFloat(Sm(1), -1075), Bin("+", I(1), LImag(Sm(1), 0)), LRune(97),
+         Cv("float32", LFloat(Sm(3), -1)), Cv("complex128", LImag(Sm(3), -1)), Cv("int8", LInt(N7)), LStr(<<115>>), LBool(TRUE)>>
+PB == IF Tier = 1 THEN PB1 ELSE PB1 \o PB2
+\* second declaration, x = the identifier k1
+PFAt(f, x) ==
+  CASE f = 1 -> Un("-", x) [] f = 2 -> Un("^", x) [] f = 3 -> Un("+", x)
+    [] f = 4 -> Bin("+", x, I(1)) [] f = 5 -> Bin("-", I(1), x) [] f = 6 -> Bin("*", x, x) [] f = 7 -> Bin("/", x, I(2))
+    [] f = 8 -> Bin("<<", x, I(1)) [] f = 9 -> Bin(">>", x, I(1)) [] f = 10 -> Bin("*", x, LFloat(Sm(1), -1))
+    [] f = 11 -> Bin("+", x, LImag(Sm(1), 0)) [] f = 12 -> Bin("<", x, I(0))
+    [] f = 13 -> Bin("%", x, I(3)) [] f = 14 -> Bin("|", x, I(1)) [] f = 15 -> Bin("&^", I(-1), x) [] f = 16 -> Cv("int64", x)
+    [] f = 17 -> Cv("uint64", x) [] f = 18 -> Cv("complex128", x) [] f = 19 -> Bin("==", x, x) [] f = 20 -> Cv("float64", x)
+    [] f = 21 -> Bin("-", x, x) [] f = 22 -> Un("!", x) [] f = 23 -> Bin("+", x, x) [] f = 24 -> Un("-", Un("-", x))
+PFn == IF Tier = 1 THEN 11 ELSE 24
+\* third declaration, x = k1, y = k2
+PGAt(g, x, y) ==
+  CASE g = 1 -> Bin("+", x, y) [] g = 2 -> Bin("-", x, y) [] g = 3 -> Un("-", x) [] g = 4 -> Bin(">", x, I(0))
+    [] g = 5 -> Cv("uint64", Bin("-", x, I(1))) [] g = 6 -> x
+    [] g = 7 -> Bin("*", y, I(2)) [] g = 8 -> Bin("<", y, x) [] g = 9 -> Bin("==", x, y) [] g = 10 -> Un("-", y)
+    [] g = 11 -> Bin("*", x, LFloat(Sm(1), 0)) [] g = 12 -> Bin("/", y, x)
+PGn == IF Tier = 1 THEN 6 ELSE 12
+NProgs(pb) == Len(pb) * PFn * PGn
+DeclOf(i, t) == LET r == Eval(t) IN
+                [name |-> NameOf(i), expr |-> t, src |-> Show(t), rst |-> r.st, reflit |-> RefLit(r), vt |-> PrintType(r),
+                 dt |-> IF DynObservable(r) THEN 1 ELSE 0, kids |-> <<>>]
+ProgOf(pb, id, j) ==
+  LET nb == Len(pb)
+      bi == ((j - 1) % nb) + 1
+      f == (((j - 1) \div nb) % PFn) + 1
+      g == ((j - 1) \div (nb * PFn)) + 1
+      k1 == K(1, pb[bi])
+      k2 == K(2, PFAt(f, k1))
+      ds == <<DeclOf(1, k1.a), DeclOf(2, k2.a), DeclOf(3, PGAt(g, k1, k2))>>
+  IN [id |-> id, scope |-> IF (bi + f + g) % 2 = 0 THEN "pkg" ELSE "func", decls |-> ds,
+      rst |-> IF ds[1].rst # "ok" THEN ds[1].rst ELSE IF ds[2].rst # "ok" THEN ds[2].rst ELSE ds[3].rst]
+\* N2 depth-2 cases follow the N1 depth-1 cases, then the programs; shard k exports the ids with id % NShards = k
 CasesOf(gs) ==
   LET n1 == SumN(gs, 1)
-      nall == n1 + N2
+      pb == PB
+      nall == n1 + N2 + NProgs(pb)
       cnt == (nall - Shard + NShards) \div NShards - (IF Shard = 0 THEN 1 ELSE 0) IN
-  [j \in 1..cnt |-> CaseOf(gs, IF Shard = 0 THEN j * NShards ELSE Shard + (j - 1) * NShards, n1)]
+  [j \in 1..cnt |-> LET id == IF Shard = 0 THEN j * NShards ELSE Shard + (j - 1) * NShards IN
+                    IF id <= n1 + N2 THEN CaseOf(gs, id, n1) ELSE ProgOf(pb, id, id - n1 - N2)]
 ASSUME Mode = "gen" => (LitPowersOk /\ IntLitsOk /\ ndJsonSerialize("cases.ndjson", CasesOf(Groups)))
 
 (* ------------------------------------------------------------------ Mode "mc": the int64 fast path at width W *)
